@@ -88,6 +88,8 @@ func C14(ctx *core.Ctx, r *core.Report) {
 	c14WorklistGuard(ctx, r)
 	c14EveryBaseCompiled(ctx, r)
 	c14LexerPosInBounds(ctx, r)
+	c14ImportRememberedAsAsked(ctx, r)
+	c14SingleDefaultGuard(ctx, r)
 	c14AnyRejectedByDeviationCheck(ctx, r)
 	// an import of a submodule that is not merged is never resolved: its module stays nil
 	c01SubmoduleMergeComplete(ctx, r)
